@@ -1,6 +1,7 @@
 import ErbiumModel.Util
 import ErbiumModel.Model.DhcpWire
 import ErbiumModel.Model.Frame
+import ErbiumModel.Spec.FrameRfc
 import ErbiumModel.Generated.Dhcp
 /-! Driver glue for the DHCP wire suites (`dhcprt`, `dhcpparse`, `frame`, `bflag`). -/
 namespace Erbium.Judge.C12
@@ -100,30 +101,9 @@ def judgeParse (inp obs : List String) : Verdict :=
     | none => badInput "hex"
   | _ => badInput "dhcpparse"
 
-/-! Independent reading of a frame (the specification side): an Ethernet/IPv4/UDP decoder and
-    checksum verifier that shares nothing with `Frame.frame` except `sumWords`/`fold`. -/
-def validFrame (u : Frame.Udp4) (f : List Nat) : Option String :=
-  let eth := f.take 14
-  let ip := (f.drop 14).take 20
-  let udp := (f.drop 34).take 8
-  let pay := f.drop 42
-  let g16 (l : List Nat) (i : Nat) : Nat := l.getD i 0 * 256 + l.getD (i + 1) 0
-  if f.length < 42 then some "short"
-  else if eth.take 6 != u.dmac || (eth.drop 6).take 6 != u.smac then some "mac"
-  else if g16 eth 12 != 0x0800 then some "ethertype"
-  else if ip.getD 0 0 != 0x45 then some "ip-vhl"
-  else if g16 ip 2 != 28 + u.payload.length then some "ip-totlen"
-  else if ip.getD 9 0 != 17 then some "ip-proto"
-  else if (ip.drop 12).take 4 != u.src || (ip.drop 16).take 4 != u.dst then some "ip-addr"
-  else if Frame.fold (Frame.sumWords ip) != 0xffff then some "ip-checksum"
-  else if g16 udp 0 != u.sport || g16 udp 2 != u.dport then some "udp-port"
-  else if g16 udp 4 != 8 + u.payload.length then some "udp-len"
-  else if pay != u.payload then some "payload"
-  else if g16 udp 6 != 0 &&
-      Frame.fold (Frame.sumWords (u.src ++ u.dst ++ [0, 17] ++ [udp.getD 4 0, udp.getD 5 0] ++ udp ++ pay)) != 0xffff then
-    some "udp-checksum"
-  else none
-
+/-! The independent reading of a frame (specification side) is `Spec.FrameRfc.validFrame`;
+    `C12_frame_valid` proves the model's frame always passes it. -/
+open Spec.FrameRfc in
 def judgeFrame (inp obs : List String) : Verdict :=
   match getHex inp "src", getNat inp "sport", getHex inp "smac", getHex inp "dst", getNat inp "dport",
         getHex inp "dmac", getHex inp "payload" with
